@@ -49,6 +49,9 @@ package resolver
 //@   assert at call (*middleware/resolver.Resolver).checkGlueRR#1: lastret("middleware/resolver.validReferral")
 //@   assert at call (*middleware/resolver.Resolver).lookupV4Nss#1: lastret("middleware/resolver.validReferral")
 //@   assert at call (*middleware/resolver.Resolver).resolveWithCachedNameservers#1: lastret("middleware/resolver.validReferral")
+//@   # C08: the cached delegation descended into is the one of the zone this referral names, not one that shares its hash
+//@   assert at call (*middleware/resolver.Resolver).resolveWithCachedNameservers#1: lastret("middleware/resolver.sameZone")
+//@   assert at call middleware/resolver.sameZone#1: arg0 == cached.Servers && arg1 == q.Name
 //@   assert at call (*internal/authority.Cache).SetUntil#1: lastret("middleware/resolver.validReferral")
 //@   assert at call middleware/resolver.validReferral#1: arg0 == nsInfo && arg1 == rs.servers.Zone && arg2 == rs.req.Question[0]
 //@
@@ -737,6 +740,11 @@ package resolver
 //@   nosafety all pre
 //@   assert at call middleware/cache.Key#1: len(arg1) == 1 && arg1[0] == cd && arg0.Qtype == dns.TypeNS
 //@   assert at call (*internal/authority.Cache).Get#1: arg1 == lastret("middleware/cache.Key")
+//@   # C08 ("a delegation is used for at most the lifetime its parent granted"): the key is a 64-bit hash, so what is
+//@   # found under it is used as the delegation of the zone that was looked up only if the entry says it IS that zone
+//@   # (a delegation of another zone with the same hash would otherwise outlive the withdrawn one it stands in for)
+//@   assert at call middleware/resolver.sameZone#1: arg0 == ns.Servers && arg1 == q.Name
+//@   assert at return#2: lastret("middleware/resolver.sameZone")
 //@   assert at return#2: lastret("(*internal/authority.Cache).Get", 1) == nil && result.deadline == ns.ExpiresAt && result.key == key && result.servers == ns.Servers && result.parentDS == ns.DSSet
 //@   assert at return#3: tzero(result.deadline) && result.servers == r.rootServers
 //@   assert at call (*middleware/resolver.Resolver).searchCache#1: arg2 == cd && arg3 == origin
@@ -913,4 +921,11 @@ package resolver
 //@   assert at return#2: result && lastret("github.com/miekg/dns.IsSubDomain")
 //@   assert at call github.com/miekg/dns.IsSubDomain#1: arg0 == h.Name && arg1 == q.Name && h.Rrtype == dns.TypeDNAME
 //@   assert at return#3: !result && exhausted(1)
+
+//@ # a cached delegation's servers are those of a zone iff they are there and name that zone (ASCII case-insensitively)
+//@ func sameZone
+//@   abstract
+//@   nosafety all pre
+//@   assert at call strings.EqualFold#1: arg0 == servers.Zone && arg1 == zone && servers != nil
+//@   assert at return: result ==> servers != nil && lastret("strings.EqualFold")
 
